@@ -36,6 +36,27 @@ for _v in (2**32, 2**32 + 1, 2**32 + 5, 2**40 + 3, 2**31, 2**33 - 1, -(2**32), 2
     VARINTS.append(recfmt.enc_varint(_v))
 
 
+def _v2_first_record_fields(buf, pos, end):
+    """{field: (position, encoded length)} of the varint fields of the first v2 record."""
+    out = {}
+    v, p = recfmt.dec_varint(buf, pos)
+    out["length"] = (pos, p - pos)
+    p += 1  # attributes
+    _, q = recfmt.dec_varint(buf, p)  # timestamp delta
+    _, q = recfmt.dec_varint(buf, q)  # offset delta
+    klen, q2 = recfmt.dec_varint(buf, q)
+    out["klen"] = (q, q2 - q)
+    q = q2 + max(klen, 0)
+    vlen, q2 = recfmt.dec_varint(buf, q)
+    out["vlen"] = (q, q2 - q)
+    q = q2 + max(vlen, 0)
+    _, q2 = recfmt.dec_varint(buf, q)
+    out["hcount"] = (q, q2 - q)
+    if q2 > end:
+        raise ValueError("record beyond batch")
+    return out
+
+
 # ------------------------------------------------------------------------------------
 # corpus (independent writer)
 
@@ -242,6 +263,36 @@ def cases(name, buf, tier, seed):
                     yield f"{name}/varint/{pos}/{vi}", fix_crc_v2(bytes(m), s), None
                 pos += 1
                 k += 1
+    # two hostile varint fields of one record at once (one untrusted field must never be
+    # the bound of another): record length / key length / value length / header count
+    for (s, e, magic) in spans:
+        if not (magic >= 2 and (buf[s + 22] & 7) == 0):
+            continue
+        try:
+            fields = _v2_first_record_fields(buf, s + 61, e)
+        except Exception:  # noqa: BLE001
+            continue
+        huge = [2**31 - 1, 2**40 + 3, 2**61, 2**62]
+        names = sorted(fields)
+        for i, fa in enumerate(names):
+            for fb in names[i + 1:]:
+                for va in huge:
+                    for vb in huge:
+                        if tier == "quick" and (va, vb) not in ((2**62, 2**61), (2**61, 2**62),
+                                                          (2**31 - 1, 2**31 - 1), (2**40 + 3, 2**40 + 3)):
+                            continue
+                        (pa, la), (pb, lb) = fields[fa], fields[fb]
+                        if pa > pb:
+                            (pa, la, va2), (pb, lb, vb2) = (pb, lb, vb), (pa, la, va)
+                        else:
+                            va2, vb2 = va, vb
+                        ea, eb = recfmt.enc_varint(va2), recfmt.enc_varint(vb2)
+                        m = bytearray(buf[:pa]) + ea + bytearray(buf[pa + la:pb]) + eb + \
+                            bytearray(buf[pb + lb:])
+                        grow = len(ea) - la + len(eb) - lb
+                        (length,) = struct.unpack_from(">i", m, s + 8)
+                        struct.pack_into(">i", m, s + 8, length + grow)
+                        yield f"{name}/varint2/{fa}+{fb}/{va}/{vb}", fix_crc_v2(bytes(m), s), None
     # compressed payloads with inconsistent inner content (checksum valid)
     for (s, e, magic) in spans:
         if magic >= 2 and (buf[s + 22] & 7) in (1, 2, 3, 4) and s == 0 and e == n:
@@ -485,7 +536,7 @@ def gen_plan(seed, index, tier="quick"):
     all_cases = []
     for cid, data, expect in cases(name, buf, "quick", seed):
         kind = cid.split("/")[1]
-        if kind in ("trunc", "byte", "bytefix", "f32", "f32fix", "varint", "inner", "f16"):
+        if kind in ("trunc", "byte", "bytefix", "f32", "f32fix", "varint", "varint2", "inner", "f16"):
             all_cases.append((cid, data))
     cid, data = r.choice(all_cases)
     return {"format": 1, "prop": "C10", "engine": "c10sys", "seed": scenario.subseed(seed, "C10", index),
